@@ -307,6 +307,7 @@ namespace ip {
 		// datagram; it no longer occupies the receive queue
 		m_queue_size -= int(p.buffer.size());
 		m_incoming_queue.erase(m_incoming_queue.begin());
+		ec.clear();
 		return read;
 	}
 
